@@ -1,9 +1,11 @@
 """C48 JIT-compiled numerical kernels agree with their interpreted definitions (two programs).
 
 Every unit of vf.tools.jit_units (solution kernels of all methods and orders, evolution integrals,
-interpolation in x and N space, Mellin path, scale variations, coupling solutions, harmonic-sum
-cache, log/g functions, as1/as2 anomalous dimensions and matching elements, matrix exponentials,
-build_ome; thorough: the full quad_ker_ad / quad_ker_ome) is executed in two fresh processes:
+interpolation in x and N space, Mellin paths, scale variations, coupling solutions, harmonic-sum
+cache, log/g functions, as1/as2 anomalous dimensions (QCD and QED bases) and matching elements, the
+charge-weighted QED non-singlet selectors, matrix exponentials, build_ome, the element selectors of
+the integration kernel; thorough: the full quad_ker_ad (QCD and QED branches) / quad_ker_ome and the
+QED anomalous-dimension dispatchers) is executed in two fresh processes:
 one with numba enabled and an EMPTY cache directory (so that everything is compiled from the
 current sources; a compilation/typing error is a violation), one interpreted. The outputs are
 compared label by label on the complete lattice of the unit.
@@ -25,12 +27,23 @@ LEVEL = "translation_validation"
 TECHNIQUE = "differential execution of two programs (numba-compiled from a fresh cache vs interpreted) on complete explicit input lattices"
 LEVEL_TEXT = (
     "each compiled entry point on the evolution path is compiled from the current tree and evaluated on its full lattice; every value "
-    "is compared with the interpreted definition (1e-10 relative + 1e-13 absolute)"
+    "is compared with the interpreted definition (1e-10 relative + 1e-13 absolute per output, and 1e-10 relative element by element "
+    "up to 1e-13 of the largest element of the output)"
 )
-LEVEL_NOTE = "lattices are those of vf/tools/jit_units.py; quick leaves out the full integration kernel (8 min compile), thorough includes it"
+LEVEL_NOTE = (
+    "lattices are those of vf/tools/jit_units.py; quick leaves out the full integration kernel (8 min compile; QCD and QED branches, QED "
+    "anomalous-dimension dispatchers), thorough includes it; the element selectors of the kernel and the as1/as2/aem QED entries are quick"
+)
 FLOOR_NONTRIVIAL = 5
 
 RTOL, ATOL = 1e-10, 1e-13
+# element by element: 1e-10 of the element itself + 1e-13 of the largest element of the same output (cancellation noise)
+ERTOL, ENOISE = 1e-10, 1e-13
+# outputs that are differences of O(1) terms (exact evolution integrals vanish at a1 == a0, basis functions vanish outside their
+# support): the two programs differ there by rounding noise of the O(1) terms, so they are judged on the absolute scale 1 only
+# (the per-output rule above).  Measured on the current tree: every other family uses < 4e-4 (quick) / < 4e-3 (thorough: the
+# integration kernel) of the element-wise tolerance, these use 0.8 ... 1e285 of it.
+CANCELLING = {"ei.j34_exact", "a4.j03_exact", "a4.j13_exact", "a4.j23_exact", "a4.j33_exact", "interp.N", "interp.x", "evaluate_grid"}
 
 
 def _run(unit, jit):
@@ -42,7 +55,7 @@ def _run(unit, jit):
     env["NUMBA_CACHE_DIR"] = cache
     env["NUMBA_NUM_THREADS"] = "1"
     try:
-        out = subprocess.run([sys.executable, "-m", "vf.tools.jit_units", unit], env=env, capture_output=True, text=True, timeout=3000)
+        out = subprocess.run([sys.executable, "-m", "vf.tools.jit_units", unit], env=env, capture_output=True, text=True, timeout=30000)
     finally:
         shutil.rmtree(cache, ignore_errors=True)
     for line in out.stdout.splitlines():
@@ -67,6 +80,7 @@ def evaluate(case):
         res.fail(f"{unit}/labels", "the two programs produced different label sequences")
         return res
     worst = 0.0
+    worst_el = 0.0
     nvals = 0
     for (lab, a), (_, b) in zip(interp, jit):
         a = np.array([complex(x, y) for x, y in a])
@@ -84,7 +98,20 @@ def evaluate(case):
         worst = max(worst, d / scale)
         if d > ATOL + RTOL * scale:
             res.fail(f"{unit}/{lab.split('/')[0]}/value", f"{lab}: interpreted {a.tolist()[:3]} vs compiled {b.tolist()[:3]} (max diff {d:.3e})")
-    res.info = {"max_rel_diff": worst, "values": nvals, "labels": len(interp)}
+            continue
+        if fin.any() and lab.split("/")[0] not in CANCELLING:
+            # small outputs (couplings, small entries next to large ones) are judged relative to themselves
+            mod = np.abs(a[fin])
+            tol = ERTOL * mod + ENOISE * float(mod.max()) + 1e-300
+            frac = np.abs(a[fin] - b[fin]) / tol
+            k = int(np.argmax(frac))
+            worst_el = max(worst_el, float(frac[k]))
+            if frac[k] > 1.0:
+                res.fail(
+                    f"{unit}/{lab.split('/')[0]}/element-value",
+                    f"{lab}: element {k}: interpreted {a[fin][k]!r} vs compiled {b[fin][k]!r} (diff {abs(a[fin][k] - b[fin][k]):.3e}, allowed {tol[k]:.3e}; largest element {float(mod.max()):.3e})",
+                )
+    res.info = {"max_rel_diff": worst, "max_elementwise_fraction_of_tolerance": worst_el, "values": nvals, "labels": len(interp)}
     res.outcome = f"{unit}:{'agree' if not res.fails else 'differ'}"
     return res
 
@@ -106,6 +133,9 @@ def run(ctx):
         "vs NUMBA_DISABLE_JIT=1; all labelled outputs of the unit's explicit lattice compared; a case = one unit; non-trivial = all"
     )
     ctx.assumptions += [
-        "agreement is judged to 1e-10 relative (LLVM may contract/reorder floating-point operations; complex pow/exp differ in the last bits)",
+        "agreement is judged to 1e-10 relative (LLVM may contract/reorder floating-point operations; complex pow/exp differ in the last bits): "
+        "per output 1e-13 + 1e-10*max(1, largest element), and element by element 1e-10*|element| + 1e-13*(largest element of the same output); "
+        "the element-wise rule is not applied to the families " + ", ".join(sorted(CANCELLING)) + " (differences of O(1) terms, judged on the absolute scale 1)",
+        "one type signature per entry point: the one the compiled integration kernel uses (complex N, int nf, float couplings, int tuples, IntEnum members)",
         "the interpreted run is the definition; a unit failing in interpreted mode is a harness error, not a finding",
     ]
